@@ -352,7 +352,7 @@ theorem matches_rename (σ : String → String) (hσ : Function.Injective σ) (c
   cases specBind c.spec args <;> rfl
 
 theorem bucket_rename (σ : String → String) (c : Cand) (u : Bool) : (c.rename σ).bucket u = c.bucket u := by
-  obtain ⟨id, ⟨gens, ps, nreq, ret, sc⟩, kind, height⟩ := c
+  obtain ⟨id, ⟨gens, ps, nreq, ret, sc⟩, kind, height, pending⟩ := c
   cases kind with
   | dynamic => rfl
   | static => cases gens <;> rfl
@@ -388,5 +388,40 @@ theorem resolveLoop_rename (σ : String → String) (hσ : Function.Injective σ
         · have := ih e g (d ++ [c]); simpa using this
     · exact ih e g d
 
+
+/-! ## candidate collection across scopes -/
+/-- when no visible overload is a pending forward declaration, the visible set is simply every overload registered in
+the enclosing scopes, innermost first -/
+theorem getItem_flat (levels : List ScopeLevel) (h : ∀ l ∈ levels, ∀ c ∈ l.funcs, c.pending = false) :
+    (getItem levels).getD [] = levels.flatMap (·.funcs) := by
+  induction levels with
+  | nil => rfl
+  | cons l parents ih =>
+    have ih' := ih (fun l' hl' => h l' (List.mem_cons_of_mem _ hl'))
+    simp only [getItem, List.flatMap_cons]
+    cases hf : l.funcs with
+    | nil => simpa using ih'
+    | cons c cs =>
+      simp only
+      cases hp : getItem parents with
+      | none =>
+        rw [hp] at ih'; simp only [Option.getD_none] at ih'
+        simp [← ih']
+      | some ps =>
+        rw [hp] at ih'; simp only [Option.getD_some] at ih'
+        have hnp : ∀ x ∈ ps, x.pending = false := by
+          intro x hx
+          rw [ih'] at hx
+          obtain ⟨l', hl', hx'⟩ := List.mem_flatMap.mp hx
+          exact h l' (List.mem_cons_of_mem _ hl') x hx'
+        have hfilt : ∀ rt h, ps.filter (fun c => !(skipOwnForward rt h c)) = ps := by
+          intro rt h
+          rw [List.filter_eq_self]
+          intro x hx
+          simp only [skipOwnForward, hnp x hx, Bool.false_and, Bool.and_false]
+          cases x.kind <;> rfl
+        cases l.recourse with
+        | none => simp [ih']
+        | some rt => simp only [Option.getD_some]; rw [hfilt rt, ih']
 
 end XrayModel
